@@ -1,4 +1,4 @@
-SPECIFICATION Spec
+SPECIFICATION FairSpec
 CONSTANTS
   Chains = {1, 2, 3}
   Slack = 2
@@ -7,9 +7,9 @@ CONSTANTS
   Limit = 3
   Window = 4
   MaxRound = 3
-  MaxSnaps = 8
+  MaxSnaps = 6
   MaxEarly = 1
-  Late = {}
+  Late = {3}
   MaxPub = 1
   MaxAhead = 1
   Interleave = FALSE
@@ -18,12 +18,5 @@ CONSTANTS
   RemoteAnytime = FALSE
   Eager = TRUE
   Track = FALSE
-VIEW View
-INVARIANT TypeOK
-INVARIANT RemoteClosed
-INVARIANT NeverDropped
-PROPERTY SinceSafe
-PROPERTY OffsetMin
-PROPERTY HeadSafe
-PROPERTY HeadCoversFrontier
+PROPERTY Progress
 CHECK_DEADLOCK FALSE
